@@ -10,10 +10,10 @@
    resolve (beamline_components.py: _derived_coord; tied by the call-history correspondence).
    [env3 O src smp pos] = data with source_position, sample_position, position.
    tvec / phys / is_qty / is_vec: see Properties.v. *)
-From Coq Require Import Reals ZArith String List Lra.
+From Coq Require Import Reals ZArith String List Lra Bool.
 From Verif.Sem Require Import Field Val RInst RLemmas.
 From Verif.Vec Require Import Vec3.
-From Verif.C03 Require Import SemExt Graph.
+From Verif.C03 Require Import SemExt Graph GraphNeeds.
 From Run Require Import GenBeamline GenGraph Tie TieGraph.
 Import ListNotations.
 Open Scope string_scope.
@@ -62,6 +62,78 @@ Theorem C03_graph_beams_given : forall (O : Fops) (b1 b2 : val O),
   /\ resolve O FUEL (g_beamline_scatter O) E "scattered_beam" = b2.
 Proof. exact graph_beams_given. Qed.
 
+(* ---- data that carries only PART of the coordinates (Verif.C03.GraphNeeds: env_monitor = source + detector position, no
+   sample; env_secondary = sample + detector; env_primary = source + sample; env_lengths = L1, L2; [missing] = the inputs
+   transform_coords finds neither in the data nor as a rule, i.e. it refuses with KeyError iff the list is not empty;
+   [needs] = the inputs the Euclidean definition of the quantity needs and the data does not carry) *)
+Theorem C03_graph_monitor_resolves : forall (O : Fops) (src pos : val O),
+  resolve O FUEL (g_beamline_no_scatter O) (env_monitor O src pos) "Ltotal" = total_straight_beam_length_no_scatter O src pos
+  /\ resolve O FUEL (g_Ltotal_no_scatter O) (env_monitor O src pos) "Ltotal" = total_straight_beam_length_no_scatter O src pos
+  /\ missing O FUEL (g_beamline_no_scatter O) (map fst (env_monitor O src pos)) "Ltotal" = []
+  /\ resolve O FUEL (g_beamline_scatter O) (env_monitor O src pos) "position" = pos
+  /\ resolve O FUEL (g_beamline_scatter O) (env_monitor O src pos) "source_position" = src.
+Proof. exact graph_monitor_resolves. Qed.
+
+Theorem C03_graph_monitor_refuses : forall (O : Fops) (src pos : val O),
+  forallb (fun n => same_set (missing O FUEL (g_beamline_scatter O) (map fst (env_monitor O src pos)) n) ["sample_position"])
+          ["incident_beam"; "scattered_beam"; "L1"; "L2"; "two_theta"; "Ltotal"; "sample_position"] = true.
+Proof. exact graph_monitor_refuses. Qed.
+
+Theorem C03_graph_secondary_resolves : forall (O : Fops) (smp pos : val O),
+  let sca := straight_scattered_beam O pos smp in
+  resolve O FUEL (g_beamline_scatter O) (env_secondary O smp pos) "scattered_beam" = sca
+  /\ resolve O FUEL (g_beamline_scatter O) (env_secondary O smp pos) "L2" = L2 O sca
+  /\ resolve O FUEL (g_L2 O) (env_secondary O smp pos) "L2" = L2 O sca
+  /\ resolve O FUEL (g_scattered_beam O) (env_secondary O smp pos) "scattered_beam" = sca
+  /\ forallb (fun n => same_set (missing O FUEL (g_beamline_scatter O) (map fst (env_secondary O smp pos)) n) ["source_position"])
+             ["incident_beam"; "L1"; "two_theta"; "Ltotal"; "source_position"] = true
+  /\ missing O FUEL (g_beamline_no_scatter O) (map fst (env_secondary O smp pos)) "Ltotal" = ["source_position"].
+Proof. exact graph_secondary_resolves. Qed.
+
+Theorem C03_graph_primary_resolves : forall (O : Fops) (src smp : val O),
+  let inc := straight_incident_beam O src smp in
+  resolve O FUEL (g_beamline_scatter O) (env_primary O src smp) "incident_beam" = inc
+  /\ resolve O FUEL (g_beamline_scatter O) (env_primary O src smp) "L1" = L1 O inc
+  /\ resolve O FUEL (g_L1 O) (env_primary O src smp) "L1" = L1 O inc
+  /\ resolve O FUEL (g_incident_beam O) (env_primary O src smp) "incident_beam" = inc
+  /\ forallb (fun n => same_set (missing O FUEL (g_beamline_scatter O) (map fst (env_primary O src smp)) n) ["position"])
+             ["scattered_beam"; "L2"; "two_theta"; "Ltotal"; "position"] = true
+  /\ missing O FUEL (g_beamline_no_scatter O) (map fst (env_primary O src smp)) "Ltotal" = ["position"].
+Proof. exact graph_primary_resolves. Qed.
+
+Theorem C03_graph_lengths_given : forall (O : Fops) (src smp pos b1 b2 l1 l2 : val O),
+  let inc := straight_incident_beam O src smp in let sca := straight_scattered_beam O pos smp in
+  resolve O FUEL (g_beamline_scatter O) (env_lengths O l1 l2) "Ltotal" = total_beam_length O l1 l2
+  /\ resolve O FUEL (g_Ltotal_scatter O) (env_lengths O l1 l2) "Ltotal" = total_beam_length O l1 l2
+  /\ resolve O FUEL (g_beamline_scatter O) (env_lengths O l1 l2) "L1" = l1
+  /\ resolve O FUEL (g_beamline_scatter O) (env_lengths O l1 l2) "L2" = l2
+  /\ resolve O FUEL (g_beamline_scatter O) (env_L1_secondary O l1 smp pos) "Ltotal" = total_beam_length O l1 (L2 O sca)
+  /\ resolve O FUEL (g_beamline_scatter O) (env_beam_secondary O b1 smp pos) "Ltotal" = total_beam_length O (L1 O b1) (L2 O sca)
+  /\ resolve O FUEL (g_beamline_scatter O) (env_beam_secondary O b1 smp pos) "two_theta" = two_theta O b1 sca
+  /\ resolve O FUEL (g_beamline_scatter O) (env_primary_beam O src smp b2) "Ltotal" = total_beam_length O (L1 O inc) (L2 O b2)
+  /\ resolve O FUEL (g_beamline_scatter O) (env_primary_beam O src smp b2) "two_theta" = two_theta O inc b2.
+Proof. exact graph_lengths_given. Qed.
+
+(* for EVERY combination of carried coordinates and every quantity: the inputs beamline(scatter) lacks are exactly those
+   the Euclidean definition needs and the data does not carry *)
+Theorem C03_graph_needs_exact : forall (O : Fops) have n, In have (subsets COORDS) ->
+  (In n T_SCATTER -> same_set (missing O FUEL (g_beamline_scatter O) have n) (needs FUEL true have n) = true)
+  /\ (In n T_NO_SCATTER -> same_set (missing O FUEL (g_beamline_no_scatter O) have n) (needs FUEL false have n) = true).
+Proof. exact graph_needs_exact. Qed.
+
+(* ... and likewise through each special-purpose graph, for its targets *)
+Theorem C03_subgraphs_need_exact : forall (O : Fops),
+  let ne := fun (g : graph O) (scatter : bool) (targets : list string) =>
+    forallb (fun have => forallb (fun n => same_set (missing O FUEL g have n) (needs FUEL scatter have n)) targets) (subsets COORDS) in
+  ne (g_incident_beam O) true ["incident_beam"]
+  && ne (g_scattered_beam O) true ["scattered_beam"]
+  && ne (g_L1 O) true ["L1"; "incident_beam"]
+  && ne (g_L2 O) true ["L2"; "scattered_beam"]
+  && ne (g_two_theta O) true ["two_theta"; "incident_beam"; "scattered_beam"]
+  && ne (g_Ltotal_scatter O) true ["Ltotal"; "L1"; "L2"; "incident_beam"; "scattered_beam"]
+  && ne (g_Ltotal_no_scatter O) false ["Ltotal"] = true.
+Proof. exact needs_exact_subgraphs. Qed.
+
 (* ---- Euclidean meaning of what the graphs yield from three positions (exact reals) *)
 Open Scope R_scope.
 Section P.
@@ -94,6 +166,22 @@ Theorem C03_graph_two_theta_euclid : forall x0 y0 z0 x1 y1 z1 x2 y2 z2 s,
     /\ th = angle (vminus (phys x1 y1 z1 s) (phys x0 y0 z0 s)) (vminus (phys x2 y2 z2 s) (phys x1 y1 z1 s))
     /\ 0 <= th <= PI.
 Proof using. exact (graph_two_theta_euclid h mn). Qed.
+Theorem C03_graph_monitor_euclid : forall x0 y0 z0 x2 y2 z2 s, s > 0 ->
+  let E := env_monitor O (tv x0 y0 z0 s d_m) (tv x2 y2 z2 s d_m) in
+  is_qty h mn (resolve O FUEL (g_beamline_no_scatter O) E "Ltotal") (norm (vminus (phys x2 y2 z2 s) (phys x0 y0 z0 s))) s d_m DF64
+  /\ is_qty h mn (resolve O FUEL (g_Ltotal_no_scatter O) E "Ltotal") (norm (vminus (phys x2 y2 z2 s) (phys x0 y0 z0 s))) s d_m DF64.
+Proof using. exact (graph_monitor_euclid h mn). Qed.
+
+Theorem C03_graph_partial_euclid : forall x0 y0 z0 x1 y1 z1 x2 y2 z2 s, s > 0 ->
+  let src := phys x0 y0 z0 s in let smp := phys x1 y1 z1 s in let pos := phys x2 y2 z2 s in
+  let S := vminus pos smp in let I := vminus smp src in
+  is_qty h mn (resolve O FUEL (g_beamline_scatter O) (env_secondary O (tv x1 y1 z1 s d_m) (tv x2 y2 z2 s d_m)) "L2") (norm S) s d_m DF64
+  /\ is_vec h mn (resolve O FUEL (g_beamline_scatter O) (env_secondary O (tv x1 y1 z1 s d_m) (tv x2 y2 z2 s d_m)) "scattered_beam")
+                 (vx S) (vy S) (vz S) s d_m
+  /\ is_qty h mn (resolve O FUEL (g_beamline_scatter O) (env_primary O (tv x0 y0 z0 s d_m) (tv x1 y1 z1 s d_m)) "L1") (norm I) s d_m DF64
+  /\ is_vec h mn (resolve O FUEL (g_beamline_scatter O) (env_primary O (tv x0 y0 z0 s d_m) (tv x1 y1 z1 s d_m)) "incident_beam")
+                 (vx I) (vy I) (vz I) s d_m.
+Proof using. exact (graph_partial_euclid h mn). Qed.
 End P.
 
 (* hypotheses are satisfiable: source (0,0,-10), sample (0,0,0), detector (3,4,0) in metres *)
@@ -109,3 +197,12 @@ Print Assumptions C03_graph_beams_given.
 Print Assumptions C03_graph_lengths_euclid.
 Print Assumptions C03_graph_beams_euclid.
 Print Assumptions C03_graph_two_theta_euclid.
+Print Assumptions C03_graph_monitor_resolves.
+Print Assumptions C03_graph_monitor_refuses.
+Print Assumptions C03_graph_secondary_resolves.
+Print Assumptions C03_graph_primary_resolves.
+Print Assumptions C03_graph_lengths_given.
+Print Assumptions C03_graph_needs_exact.
+Print Assumptions C03_subgraphs_need_exact.
+Print Assumptions C03_graph_monitor_euclid.
+Print Assumptions C03_graph_partial_euclid.
